@@ -105,7 +105,12 @@ KS = (1, 2, 8, 9, 64)
 ID_FUNCS = ("query_by_guids", "query_by_interval_guids", "query_by_transcript_interval_guids", "query_by_feature_interval_guids",
             "query_by_feature_identifiers")
 _CHILD_KEY = {"gene": ("transcripts", "transcript_interval_guid"), "fcoll": ("feature_intervals", "feature_interval_guid"),
-              "vcoll": ("variant_intervals", "guid")}
+              "vcoll": ("variant_intervals", "variant_interval_guid")}
+
+
+def _child_guid(d, key):
+    """guid of a child inside a member's to_dict(); VariantInterval.to_dict called it `guid` before fix 28fa9b9."""
+    return d[key] if key in d else d.get("guid")
 
 
 # ======================================================================================================================
@@ -666,7 +671,7 @@ def _check_members(ctx, monitor, key, M, src, r, expected, optional, rb, detail)
             ctx.check("member.dict", False, key=("to_dict-raised", t, key[0]), exc=repr(exc1 or exc2)[:200], **detail)
         else:
             sd = dict(sd)
-            sd[ckey] = [c for c in sd[ckey] if c[cguid] in want_guids]
+            sd[ckey] = [c for c in sd[ckey] if _child_guid(c, cguid) in want_guids]
             same = _sorted_children(sd, t) == _sorted_children(rd, t)
             ids_same = real.identifiers == srcm.identifiers and real.guid == srcm.guid and real.children_guids == want_guids
             pos_same = (real.start, real.end) == span(m)
@@ -767,7 +772,7 @@ def _pos_query(ctx, M, obj, s, e, flags, gen, mode):
         extra = {}
         if type(exc).__name__ == "EmptyLocationException" and M["win"] is not None:
             extra = _kept_model(x["keep"] + x["optional"], (max(x["bounds"][0], M["win"][0]), min(x["bounds"][1], M["win"][1])))
-        mech = "sliced-child+variants" if extra and variant_slice_mechanism(extra["kept_model"], extra["expected_window"]) else "plain"
+        mech = (variant_slice_mechanism(extra["kept_model"], extra["expected_window"]) if extra else None) or "plain"
         ctx.check("pos.refusal", False, key=("valid-query-raised", type(exc).__name__, "vcoll+coding_only" if (co and any(m["t"] == "vcoll" for m in M["members"])) else mech),
                   exc=repr(exc)[:300], has_variant_collections=any(m["t"] == "vcoll" for m in M["members"]), **extra, **detail)
         return None
@@ -795,10 +800,12 @@ def _kept_model(kept, win):
 
 
 def variant_slice_mechanism(kept_model, win):
-    """K19: the result must hold a variant collection and a gene / feature collection that overlap on the result's chunk, and
-    that gene / feature collection has a transcript, CDS or feature without a single base inside the chunk."""
+    """K19: the result must hold a variant collection V and a gene / feature collection G that overlap on the result's chunk
+    (so the constructor associates them: G.incorporate_variants(V)), and either G has a transcript, CDS or feature without a
+    single base inside the chunk ('sliced-child') or V has a variant without a base inside the chunk ('sliced-variant').
+    Returns "sliced-child", "sliced-variant", "sliced-child+sliced-variant" or None."""
     if not win or not kept_model:
-        return False
+        return None
     w0, w1 = win
 
     def clip(sp):
@@ -807,18 +814,23 @@ def variant_slice_mechanism(kept_model, win):
     def empty(blocks):
         return not any(max(b[0], w0) < min(b[1], w1) for b in blocks)
 
-    vs = [clip(m["span"]) for m in kept_model if m["t"] == "vcoll"]
-    vs = [v for v in vs if v[0] < v[1]]
+    vs = [(clip(m["span"]), any(empty(c["blocks"]) for c in m["children"])) for m in kept_model if m["t"] == "vcoll"]
+    vs = [(v, sliced) for v, sliced in vs if v[0] < v[1]]
+    labels = set()
     for m in kept_model:
         if m["t"] == "vcoll":
             continue
         a, b = clip(m["span"])
-        if a >= b or not any(max(a, v[0]) < min(b, v[1]) for v in vs):
+        if a >= b:
             continue
-        for c in m["children"]:
-            if empty(c["blocks"]) or (c.get("cds") and empty(c["cds"])):
-                return True
-    return False
+        hits = [sliced for v, sliced in vs if max(a, v[0]) < min(b, v[1])]
+        if not hits:
+            continue
+        if any(empty(c["blocks"]) or (c.get("cds") and empty(c["cds"])) for c in m["children"]):
+            labels.add("sliced-child")
+        if any(hits):
+            labels.add("sliced-variant")
+    return "+".join(sorted(labels)) or None
 
 
 def _kind(mode):
@@ -876,7 +888,7 @@ def _id_suite(ctx, M, obj, rs, pool_n, gen, mode):
                 if type(exc).__name__ == "EmptyLocationException" and M["win"] is not None:
                     # an id query can at most keep the sequence under the operand's own bounds
                     extra = _kept_model(expected, (max(M["start"], M["win"][0]), min(M["end"], M["win"][1])))
-                mech = "sliced-child+variants" if extra and variant_slice_mechanism(extra["kept_model"], extra["expected_window"]) else "plain"
+                mech = (variant_slice_mechanism(extra["kept_model"], extra["expected_window"]) if extra else None) or "plain"
                 ctx.check("id.members", False, key=("raised", fn, type(exc).__name__, "kept-member-overhangs-bounds" if overhang else "inside", mech),
                           exc=repr(exc)[:300], kept_spans=[list(span(m)) for m in expected][:6], **extra, **detail)
                 continue
@@ -948,10 +960,19 @@ def run_case(case, ctx):
 
 
 def classify(v):
-    """Mechanistic classifiers of proposed known findings."""
+    """Mechanistic classifiers of proposed known findings.
+    K19: building the result collection fails inside AnnotationCollection._associate_intervals_with_variant_intervals because the
+    result's chunk slices away a whole transcript / CDS / feature of a kept member, or a whole variant of a kept variant collection,
+    that the haplotype association then tries to lift (EmptyLocationException).  Re-derived from the witness: kept members' blocks,
+    the result window, chunk-relative overlap of a variant collection with a gene / feature collection."""
     d = v.get("detail") or {}
     exc = d.get("exc") or ""
-    if v["monitor"] in ("pos.refusal", "id.members") and exc.startswith("EmptyLocationException") and "Variant incorporation led to an EmptyLocation" in exc:
-        if variant_slice_mechanism(d.get("kept_model"), d.get("expected_window")):
-            return "K19-query-result-with-variants-and-a-child-sliced-away-cannot-be-built"
+    if v["monitor"] in ("pos.refusal", "id.members") and exc.startswith("EmptyLocationException"):
+        label = variant_slice_mechanism(d.get("kept_model"), d.get("expected_window"))
+        label = label or ""
+        if "Variant incorporation led to an EmptyLocation" in exc:      # raised by tx / CDS / feature .incorporate_variants
+            if "sliced-child" in label:
+                return "K19-query-result-with-variants-and-a-sliced-away-child-cannot-be-built"
+        elif "sliced-variant" in label:                                   # bare EmptyLocationException from the variant's own location
+            return "K19-query-result-with-variants-and-a-sliced-away-child-cannot-be-built"
     return None
